@@ -645,10 +645,13 @@ coap_proxy_forward_request_lkd(coap_session_t *session,
         /* These are not passed on */
         break;
       default:
-        coap_insert_optlist(&optlist,
-                            coap_new_optlist(opt_iter.number,
-                                             coap_opt_length(option),
-                                             coap_opt_value(option)));
+        if (!coap_insert_optlist(&optlist,
+                                 coap_new_optlist(opt_iter.number,
+                                                  coap_opt_length(option),
+                                                  coap_opt_value(option)))) {
+          coap_delete_optlist(optlist);
+          goto failed;
+        }
         break;
       }
     }
@@ -831,10 +834,15 @@ coap_proxy_forward_response_lkd(coap_session_t *session,
     case COAP_OPTION_SIZE2:
       break;
     default:
-      coap_insert_optlist(&optlist,
-                          coap_new_optlist(opt_iter.number,
-                                           coap_opt_length(option),
-                                           coap_opt_value(option)));
+      if (!coap_insert_optlist(&optlist,
+                               coap_new_optlist(opt_iter.number,
+                                                coap_opt_length(option),
+                                                coap_opt_value(option)))) {
+        coap_log_debug("Failed to copy an option to the ongoing proxy response PDU\n");
+        coap_delete_optlist(optlist);
+        coap_delete_pdu(pdu);
+        goto remove_match;
+      }
       break;
     }
   }
